@@ -11,8 +11,10 @@ controlled_by, exact named gates, random ordered non-adjacent placements) are ex
 numpy backend with density_matrix=True on integer Hermitian and non-Hermitian rho whose
 off-diagonal entries have non-zero imaginary parts, and `.state()` is compared exactly, inside Coq,
 with the model, with the Spec of the theorems and with U rho U^dagger for U = Base/Mat.circ_mat.
+Histories on long-lived objects (harness/c01_history.py, model C01/History.v, theorems C01/PropsHistory.v): a second
+density-matrix execution after parameter updates through the circuit / the gate / an alias circuit must be U_new rho U_new^dagger.
 """
-STATIC = ["C01/PropsDM", "C01/Examples"]
+STATIC = ["C01/PropsDM", "C01/Examples", "C01/PropsHistory", "C01/ExamplesHistory"]
 import random
 
 import numpy as np
@@ -511,6 +513,7 @@ def main(run):
                         "positivity / trace / Hermiticity preservation follow from the U rho U^dagger form for unitary U; "
                         "unitarity of the gate tables is checked by the table obligations, not here"]
     c01.oblige_theorems(run, "C01/PropsDM")
+    c01.oblige_theorems(run, "C01/PropsHistory")
     cases = gen_dm_cases(run, rng)
     outs, good = [], []
     for case in cases:
@@ -531,8 +534,14 @@ def main(run):
     init_check(run, rng)
     fused_dm_check(run, rng)
     gram_check(run, rng)
+    from harness import c01_history
+    c01_history.check(run, random.Random(run.seed * 7919 + 202), "dm")
     c01.malformed_check(run, rng, dm=True)
     return run.finish(level="proof", rule=(
+        "histories (harness/c01_history.py, density_matrix=True): execute / update parameters through the circuit, the gate, a "
+        "fused / shallow / `+` alias / derive (controlled_by 1..3 controls, dagger, on_qubits, invert, deep copy) / execute again on "
+        "mixed, pure and non-Hermitian rho, every parametrised class + Unitary; exact ones inside Coq against U rho U^dagger of a "
+        "from-scratch rebuild and against the history machine C01/History.v, float ones at 1e-12 (TEST level); inputs not mutated; "
         "initial_state None / Circuit / wrong shape in both modes; fused circuits (Circuit.fuse) in density-matrix mode; Gram forms "
         "sum a_i |v_i><w_i| against the state-vector runs; parametrized classes (every class of gates.py, enumerated from the source): all-zero sweep and random multiples of pi/2 "
         "through circuit(initial_state=rho), exact on the lattice (1/s)Z[i]; random angles at test level against Circuit.unitary(); "
@@ -546,6 +555,9 @@ def replay(run, data):
     qibo.set_backend("numpy")
     rp = data.get("replay", {})
     case = rp.get("case")
+    if rp.get("mechanism") == "history":
+        from harness import c01_history
+        return c01_history.replay(run, data)
     if rp.get("mechanism") == "param":
         try:
             out = real_param_dm(case)
